@@ -185,6 +185,32 @@ def validate_texts(run, name, texts_path, pid_key, shards=16):
 
 def replay(path, seed):
     payload = json.load(open(path))["case"]
+    if payload.get("family") == "lex-history":
+        # re-run the whole registration history up to the stage of the mismatch
+        bit = {"prefix": 1, "postfix": 2, "infix": 4}
+        opname = {"prefix": "+++", "postfix": "---", "infix": "hi"}
+        one = os.path.join(tlc.WORK, "lex-hist-one.ndjson")
+        core.write_ndjson(one, [payload["record"]])
+        empty = os.path.join(tlc.WORK, "lex-hist-empty.ndjson")
+        core.write_ndjson(empty, [])
+        script, mask = [{"replay": one if payload["stage"] == "S0" else empty, "stage": "S0"}], 0
+        # warm-up: tokenize the input once before anything is registered (what the history did)
+        script[0] = {"replay": one if payload["stage"] == "S0" else empty, "stage": "S0"}
+        warm = os.path.join(tlc.WORK, "lex-hist-warm.ndjson")
+        core.write_ndjson(warm, [dict(payload["record"], dc=True)])
+        script.insert(0, {"replay": warm, "stage": "warm"})
+        for k in payload["order"]:
+            mask |= bit[k]
+            script.append({"reg": [k, opname[k]]})
+            script.append({"replay": one if payload["stage"] == "S%d" % mask else warm, "stage": "S%d" % mask})
+            if payload["stage"] == "S%d" % mask:
+                break
+        sp = os.path.join(tlc.WORK, "lex-hist-one.json")
+        json.dump(script, open(sp, "w"))
+        out, _ = core.run_vh(["lex-history", sp])
+        bad = [o for o in out if "mismatch" in o]
+        print(json.dumps({"input": chars_str(payload["record"]["chars"]), "order": payload["order"], "stage": payload["stage"], "mismatch": bad}, indent=1))
+        return 1 if bad else 0
     rec = payload["record"]
     p = os.path.join(tlc.WORK, "lex-replay-one.ndjson")
     core.write_ndjson(p, [rec])
